@@ -20,13 +20,34 @@ use any_vec::{AnyVec, SatisfyTraits};
 use core::marker::PhantomData;
 use core::mem::MaybeUninit;
 
-pub static mut F_V: [*const (); 2] = [core::ptr::null(); 2];
-pub static mut F_FN: Option<fn()> = None;
+pub trait FaultInspect {
+    fn inspect(&self);
+}
+pub struct FInsp<Tr: ?Sized + Trait, B: Backend, E: Elem> {
+    v0: *const AnyVec<Tr, B>,
+    v1: *const AnyVec<Tr, B>,
+    ph: PhantomData<E>,
+}
+impl<Tr: ?Sized + Trait, B: Backend, E: Elem> FaultInspect for FInsp<Tr, B, E> {
+    fn inspect(&self) {
+        unsafe {
+            let v0 = if self.v0.is_null() { None } else { Some(&*self.v0) };
+            let v1 = if self.v1.is_null() { None } else { Some(&*self.v1) };
+            if let Some(v) = v0 {
+                inspect_one::<Tr, B, E>(v, v1);
+            }
+            if let Some(v) = v1 {
+                inspect_one::<Tr, B, E>(v, None);
+            }
+        }
+    }
+}
+/// trait-object dispatch (vtable targets restricted to impls of FaultInspect), not a `fn()` pointer
+pub static mut F_OBJ: Option<*const dyn FaultInspect> = None;
 
 pub fn reset() {
     unsafe {
-        F_V = [core::ptr::null(); 2];
-        F_FN = None;
+        F_OBJ = None;
     }
 }
 
@@ -34,8 +55,8 @@ pub struct FaultPanic;
 
 pub fn at_fault(_which: u8) {
     unsafe {
-        if let Some(f) = F_FN {
-            f();
+        if let Some(p) = F_OBJ {
+            (*p).inspect();
         }
     }
     #[cfg(kani)]
@@ -86,32 +107,27 @@ fn inspect_one<Tr: ?Sized + Trait, B: Backend, E: Elem>(v: &AnyVec<Tr, B>, other
     }
 }
 
-fn inspect_mono<Tr: ?Sized + Trait, B: Backend, E: Elem>() {
+/// registers the vectors to inspect and picks the fault point; keep the returned value alive during the operation
+pub fn arm<Tr: ?Sized + Trait, B: Backend, E: Elem>(v0: &AnyVec<Tr, B>, v1: Option<&AnyVec<Tr, B>>, fmax: usize) -> FInsp<Tr, B, E> {
+    let k = any_usize();
+    assume(k >= 1 && k <= fmax);
     unsafe {
-        let v0 = if F_V[0].is_null() { None } else { Some(&*(F_V[0] as *const AnyVec<Tr, B>)) };
-        let v1 = if F_V[1].is_null() { None } else { Some(&*(F_V[1] as *const AnyVec<Tr, B>)) };
-        if let Some(v) = v0 {
-            inspect_one::<Tr, B, E>(v, v1);
-        }
-        if let Some(v) = v1 {
-            inspect_one::<Tr, B, E>(v, None);
-        }
-    }
-}
-
-pub fn arm<Tr: ?Sized + Trait, B: Backend, E: Elem>(v0: &AnyVec<Tr, B>, v1: Option<&AnyVec<Tr, B>>, fmax: usize) {
-    unsafe {
-        F_V[0] = v0 as *const AnyVec<Tr, B> as *const ();
-        F_V[1] = match v1 {
-            Some(v) => v as *const AnyVec<Tr, B> as *const (),
-            None => core::ptr::null(),
-        };
-        F_FN = Some(inspect_mono::<Tr, B, E>);
-        let k = any_usize();
-        assume(k >= 1 && k <= fmax);
         fault::FAULT_AT = k;
         fault::TICKS = 0;
         fault::FAULTED = false;
+    }
+    FInsp {
+        v0: v0 as *const AnyVec<Tr, B>,
+        v1: match v1 {
+            Some(v) => v as *const AnyVec<Tr, B>,
+            None => core::ptr::null(),
+        },
+        ph: PhantomData,
+    }
+}
+pub fn engage<'a>(i: &'a (dyn FaultInspect + 'a)) {
+    unsafe {
+        F_OBJ = Some(core::mem::transmute::<*const (dyn FaultInspect + 'a), *const (dyn FaultInspect + 'static)>(i as *const (dyn FaultInspect + 'a)));
     }
 }
 
@@ -176,7 +192,8 @@ pub fn fault_h<Tr: ?Sized + Trait, B: Backend, E: Elem + SatisfyTraits<Tr>>(p: c
         }
         let _ = fill_slots::<E>(&mut slots, n);
     }
-    arm::<Tr, B, E>(v, None, fmax);
+    let finsp = arm::<Tr, B, E>(v, None, fmax);
+    engage(&finsp);
     let mut dropped_vec = false;
     guard(|| match scn {
         Scn::Clear => v.clear(),
@@ -269,7 +286,8 @@ pub fn fault_clone_h<Tr: ?Sized + Trait + Cloneable, B: Backend, E: Elem + Satis
     if !B::RESIZABLE {
         assume(m.len < v.capacity());
     }
-    arm::<Tr, B, E>(&v, Some(&y), fmax);
+    let finsp = arm::<Tr, B, E>(&v, Some(&y), fmax);
+    engage(&finsp);
     let mut keep_clone: Option<AnyVec<Tr, B>> = None;
     guard(|| match scn {
         CScn::CloneVec => {
